@@ -229,19 +229,35 @@ class C14Spec(c01.C01Spec):
                 apply([0.0, 'start', h.idx])
         if not rounds(cfg['conf']['connectionRetryTime'] + det + cfg['sched']['connect_timeout'] + 2.0):
             return
-        # phase 1: black-hole one pair for longer than the detection bound.  A pair with the leader in it exchanges
-        # heartbeats and replies all the time: there the read time-out alone has to notice (the leader at its next
-        # heartbeat after connectionTimeout of silence, the follower at one of its vote requests), however long the
-        # keep-alive budget of the sockets is; an idle pair (two followers) is only covered by TCP keep-alive.
+        # phase 1: black-hole one pair for longer than the detection bound.  A node that leads all the time sends
+        # heartbeats over the dead link: its read time-out alone has to notice after connectionTimeout of silence,
+        # however long the keep-alive budget of the sockets is.  Everything else (a follower, an idle pair, a leader
+        # that was deposed meanwhile) is only promised the general bound (read time-out or TCP keep-alive).
         if n >= 2:
             a, b = 0, n - 1
             lead = sch.leader_idx()
             if lead is not None:
                 a, b = lead, (lead + 1) % n
-                det = min(det, 1.15 * (cfg['conf']['connectionTimeout'] + 2 * cfg['conf']['raftMaxTimeout']) + 1.0)
-                w.probe('blackhole_pair_with_leader')
             apply([0.0, 'cut', a, b])
-            if not rounds(det + 1.0):
+            t_cut = w.T
+            if lead is not None:
+                tight = 1.15 * (cfg['conf']['connectionTimeout'] + 2 * cfg['conf']['raftMaxTimeout']) + 1.0
+                led = True
+                while w.T - t_cut < min(tight, det) + 1.0:
+                    if not rounds(0.1):
+                        return
+                    nd = w.hosts[lead].node
+                    if nd is None or not nd._isLeader():
+                        led = False
+                        break
+                if led and tight < det:
+                    w.probe('blackhole_pair_with_steady_leader')
+                    rep, reg = conn_state(w, a, b)
+                    if rep:
+                        orc.flag('blackhole_not_detected', 'host %d has led and sent heartbeats to the black-holed host %d for %.1f s (read time-out bound %.1f s) but still reports it connected' % (
+                            a, b, w.T - t_cut, tight), dict(pair=[a, b], reporter=a))
+                        return
+            if not rounds(max(0.0, det + 1.0 - (w.T - t_cut))):
                 return
             for x, y in ((a, b), (b, a)):
                 rep, reg = conn_state(w, x, y)
